@@ -106,6 +106,37 @@ def run_inventory(ctx, rep, rule, entries, triage, only=None):
     return sites, reach
 
 
+def rule_emptyok(ctx, rep, rid="R-C04-emptyok"):
+    """The error mapping of parse_library computes `tokens.get(location - 1)`; its justification in the panic inventory is "location 0 can
+    only be a failure on an empty token list, and the empty list parses".  The second half is a property of the grammar: the start rule
+    must accept the empty input (it is nullable).  `library = element ++ _` instead of `** _` makes a 0-byte file a parse error at
+    location 0 and the subtraction underflows."""
+    from rules.c08_trivia import Trivia
+    r = rep.rule(rid, "the grammar's start rule accepts the empty token list (it is nullable): parse_library's error mapping, which looks at the token before the "
+                      "failure position, is never run for position 0", floor=1, floor_what="start rule")
+    g = ctx.peg
+    t = Trivia(g)
+    start = "library"
+    where = "%s rule %s" % (g.file, start)
+    if start not in g.rules:
+        rep.error(rid, "start rule `library` not found")
+        return
+    # `library = traced(<library__impl()>)`: the rules handed to a wrapper as arguments are what is matched
+    inner = set()
+
+    def f(e, sq, c):
+        for pp in (e.prim,):
+            if pp is not None and pp.kind == "call" and pp.name in g.rules and pp.name not in ("_", "traced"):
+                inner.add(pp.name)
+    g.walk_elems(g.rules[start].expr, f)
+    not_null = [n_ for n_ in sorted(inner) if not t.nullable.get(n_, False)]
+    if t.nullable.get(start, False) and not not_null:
+        r.ok("rule %s|nullable" % start, where, "matches the empty input" + (" (through %s)" % ", ".join(sorted(inner)) if inner else ""))
+    else:
+        r.finding("rule %s|not-nullable" % start, where, "the start rule does not match the empty input: a file without tokens is a parse error at position 0, and parse_library's "
+                  "`location - 1` underflows (the inventory's justification of that subtraction assumes the empty list parses)")
+
+
 def rule_bound(ctx, rep):
     """R-C04-bound: the field bound used by the overflow range argument is maintained by every writer."""
     r = rep.rule("R-C04-bound", "FixedPoint.femptos < 10^15: only FixedPoint::parse (<= 15 fraction digits, guard re-verified) "
@@ -299,6 +330,7 @@ def run(ctx, rep):
     from rules import c04_magnitude
     c04_magnitude.run(ctx, rep)
     c04_magnitude.run_errrun(ctx, rep)
+    rule_emptyok(ctx, rep)
     # a slice is in bounds and on a character boundary only in the string its offsets were found in (the triage of the slicing sites assumes it)
     from rules.c14 import rule_samestr
     rule_samestr(ctx, rep, rid="R-C04-samestr")
